@@ -35,6 +35,11 @@ impl<'a> Lexer<'a> {
 
     pub fn peek_many<const N: usize>(&mut self) -> Option<[&Token<'a>; N]> {
         for _ in 0..N - self.peeked.len() {
+            // The text after the start of an f-string is lexed by
+            // `f_string_part`, so we cannot look past it here.
+            if let Some((Ok(Token::FStringStart), _)) = self.peeked.back() {
+                return None;
+            }
             let t = self.next_inner()?;
             self.peeked.push_back(t);
         }
